@@ -246,7 +246,10 @@ impl<'tcx> Cx<'tcx> {
                 .f("un", J::Str(format!("{:?}", op)))
                 .f("a", self.operand(owner, body, a))
                 .done(),
-            Rvalue::Discriminant(p) => J::obj().f("discr", self.place(body, p)).done(),
+            Rvalue::Discriminant(p) => J::obj()
+                .f("discr", self.place(body, p))
+                .f("ty", J::Str(ty_str(p.ty(&body.local_decls, tcx).ty)))
+                .done(),
             Rvalue::CopyForDeref(p) => J::obj().f("use", J::obj().f("copy", self.place(body, p)).done()).done(),
             Rvalue::Aggregate(kind, ops) => {
                 let opsj: Vec<J> = ops.iter().map(|o| self.operand(owner, body, o)).collect();
